@@ -160,3 +160,7 @@ fn c13_all_ones_content() {
     let want = !fold(v4sum(src) * 2 + 17 + len as u64 + ref_sum(&data, len, 6));
     assert!(got == want);
 }
+
+/// Harness-side mutable statics to reset between native witness-search trials (none here).
+#[allow(dead_code)]
+fn verif_reset_statics() {}
